@@ -56,16 +56,30 @@ Definition R_SUCCESS : bytes := [115;117;99;99;101;115;115].                   (
 Definition LATENCY : bytes := [108;97;116;101;110;99;121].                     (* "latency" *)
 
 (* scope.fullyQualifiedName *)
-Definition fqn (prefix name : bytes) : bytes :=
-  match prefix with [] => name | _ => prefix ++ SEP ++ name end.
+(* The sanitizer of the root scope (ScopeOptions.SanitizeOptions; the identity
+   without): three functions on strings, for metric names / prefixes / the
+   separator, for tag keys and for tag values.  The model is parametric in
+   them; the correspondence check instantiates them with Model/Sanitize.v. *)
+Record sanz := San { sn : bytes -> bytes; sk : bytes -> bytes; sv : bytes -> bytes }.
+Definition san_id : sanz := San (fun x => x) (fun x => x) (fun x => x).
+(* newRootScope: separator = sanitizer.Name(opts.Separator), "." by default *)
+Definition sepz (sz : sanz) : bytes := sn sz SEP.
+(* copyAndSanitizeMap *)
+Definition stags (sz : sanz) (t : tags) : tags := map (fun kv => (sk sz (fst kv), sv sz (snd kv))) t.
 
-(* a metric object is identified by its scope (prefix, tags) and its name in that scope *)
+(* A scope's prefix is kept in joinable form: "" for the empty prefix, else
+   prefix ++ separator, so that scope.fullyQualifiedName(name) is
+   (joinable prefix) ++ name. *)
+Definition jn (sep p : bytes) : bytes := match p with [] => [] | _ => p ++ sep end.
+
+(* a metric object is identified by its scope (joinable prefix, tags) and its
+   (sanitized) name in that scope *)
 Definition key := (bytes * tags * bytes)%type.
 Definition tags_eqb : tags -> tags -> bool :=
   list_eqb (fun a b => zs_eqb (fst a) (fst b) && zs_eqb (snd a) (snd b)).
 Definition key_eqb (a b : key) : bool :=
   zs_eqb (fst (fst a)) (fst (fst b)) && tags_eqb (snd (fst a)) (snd (fst b)) && zs_eqb (snd a) (snd b).
-Definition kfq (k : key) : bytes := fqn (fst (fst k)) (snd k).
+Definition kfq (k : key) : bytes := fst (fst k) ++ snd k.   (* fullyQualifiedName *)
 Definition ktags (k : key) : tags := snd (fst k).
 Definition flat (t : tags) : list bytes := flat_map (fun kv => [fst kv; snd kv]) t.
 (* what a reporter sees: the fully qualified name, then the tags *)
@@ -152,8 +166,9 @@ Definition set_rets (s : state) v : state :=
 
 Definition add_log (s : state) (x : list ev) : state := set_log s (log s ++ x).
 
-Definition init (root : bytes * tags) : state :=
-  State [(fst root, tmerge [] (snd root))] [] [] [] [] [] [] [] 0%nat 0 0 [] [] [].
+Definition init (sz : sanz) (root : bytes * tags) : state :=
+  State [(jn (sepz sz) (sn sz (fst root)), tmerge [] (stags sz (snd root)))]
+        [] [] [] [] [] [] [] 0%nat 0 0 [] [] [].
 
 (* ---------- get-or-create (scope.Timer / Counter / Histogram) ---------- *)
 Definition tkeys (s : state) : list key := map tkey (timers s).
@@ -264,22 +279,22 @@ Inductive op :=
 | OCall (s : nat) (n : bytes)                (* new call handle := instrument.NewCall(scopes[s], n) *)
 | OExec (c : nat) (e : bool).                (* calls[c].Exec(f), f returning an error iff e *)
 
-Definition step (fl : flavour) (clk : nat -> Z) (s : state) (o : op) : state :=
+Definition step (sz : sanz) (fl : flavour) (clk : nat -> Z) (s : state) (o : op) : state :=
   match o with
   | OSub i p =>
       match nth_error (scopes s) i with
-      | Some sc => set_scopes s (scopes s ++ [(fqn (fst sc) p, snd sc)])
+      | Some sc => set_scopes s (scopes s ++ [(jn (sepz sz) (fst sc ++ sn sz p), snd sc)])
       | None => s
       end
   | OTag i t =>
       match nth_error (scopes s) i with
-      | Some sc => set_scopes s (scopes s ++ [(fst sc, tmerge (snd sc) t)])
+      | Some sc => set_scopes s (scopes s ++ [(fst sc, tmerge (snd sc) (stags sz t))])
       | None => s
       end
   | OTimer i n =>
       match nth_error (scopes s) i with
       | Some sc =>
-          let r := get_timer fl s (fst sc, snd sc, n) in
+          let r := get_timer fl s (fst sc, snd sc, sn sz n) in
           set_thand (fst r) (thand (fst r) ++ [snd r])
       | None => s
       end
@@ -297,7 +312,7 @@ Definition step (fl : flavour) (clk : nat -> Z) (s : state) (o : op) : state :=
   | OHist i n spec =>
       match nth_error (scopes s) i with
       | Some sc =>
-          let r := get_hist fl s (fst sc, snd sc, n) spec in
+          let r := get_hist fl s (fst sc, snd sc, sn sz n) spec in
           set_hhand (fst r) (hhand (fst r) ++ [snd r])
       | None => s
       end
@@ -320,9 +335,9 @@ Definition step (fl : flavour) (clk : nat -> Z) (s : state) (o : op) : state :=
   | OCall i n =>
       match nth_error (scopes s) i with
       | Some sc =>
-          let r1 := get_counter fl s (fst sc, tmerge (snd sc) [(RESULT_TYPE, R_ERROR)], n) in
-          let r2 := get_counter fl (fst r1) (fst sc, tmerge (snd sc) [(RESULT_TYPE, R_SUCCESS)], n) in
-          let r3 := get_timer fl (fst r2) (fqn (fst sc) n, snd sc, LATENCY) in
+          let r1 := get_counter fl s (fst sc, tmerge (snd sc) (stags sz [(RESULT_TYPE, R_ERROR)]), sn sz n) in
+          let r2 := get_counter fl (fst r1) (fst sc, tmerge (snd sc) (stags sz [(RESULT_TYPE, R_SUCCESS)]), sn sz n) in
+          let r3 := get_timer fl (fst r2) (jn (sepz sz) (fst sc ++ sn sz n), snd sc, sn sz LATENCY) in
           set_calls (fst r3) (calls (fst r3) ++ [(snd r1, snd r2, snd r3)])
       | None => s
       end
@@ -339,8 +354,8 @@ Definition step (fl : flavour) (clk : nat -> Z) (s : state) (o : op) : state :=
       end
   end.
 
-Definition run (fl : flavour) (clk : nat -> Z) (root : bytes * tags) (ops : list op) : state :=
-  fold_left (step fl clk) ops (init root).
+Definition run (sz : sanz) (fl : flavour) (clk : nat -> Z) (root : bytes * tags) (ops : list op) : state :=
+  fold_left (step sz fl clk) ops (init sz root).
 
 (* ---------- what a test scope's Snapshot() shows ---------- *)
 Fixpoint interleave (a b : list Z) : list Z :=
